@@ -19,8 +19,9 @@ def attrTup (a : T3.Attr) : Int × Int × Int × Int × Int × Int × Int × Int
    ((a.nmaxb * 16 : Nat) : Int), decide (a.rwflag ≠ 0 ∧ a.nbw > 0), decide (a.writef = 0 ∧ a.nbr > 0))
 
 theorem attr_decode_bridge (d : Bytes) (h : d.length ≤ 16) :
-    Gen.Fn.t3_attr_decode d = (T3.decodeAttr d >>= fun o => .ok (o.map attrTup)) := by
+    Gen.Fn.t3_attr_decode (some d) = (T3.decodeAttr d >>= fun o => .ok (o.map attrTup)) := by
   unfold Gen.Fn.t3_attr_decode
+  simp only []
   by_cases h16 : d.length = 16
   · obtain ⟨b0, b1, b2, b3, b4, b5, b6, b7, b8, b9, b10, b11, b12, b13, b14, b15, rfl⟩ := len16 h16
     simp [T3.decodeAttr, slice, clampBound, needExact, PyFn.len, ube, beNat, PyFn.sum, PyFn.ints, attrTup]
@@ -45,6 +46,9 @@ theorem attr_decode_bridge (d : Bytes) (h : d.length ≤ 16) :
       simp only [show ((2 : Nat) : Int) = 2 from rfl] at this
       rw [this, if_neg (by omega)]
     rw [this]; rfl
+
+/-- block 0 could not be verified (`read_from_ndef_service` gave None): no attributes, like a checksum error -/
+theorem attr_decode_none : Gen.Fn.t3_attr_decode none = .ok none := rfl
 
 theorem packField_Ibe (n : Nat) : packField .Ibe (n : Int) = if n ≥ 4294967296 then .error .struct else .ok (toBE 4 n) := by
   unfold packField
@@ -398,10 +402,10 @@ theorem parseAttr_eq (d : Bytes) : Adv.parseAttr d = (T3.decodeAttr d >>= fun o 
 end emu
 
 /-! ## non-vacuity -/
-example : Gen.Fn.t3_attr_decode [0x10, 4, 1, 0, 13, 0, 0, 0, 0, 0, 1, 0, 0, 5, 0, 0x28]
+example : Gen.Fn.t3_attr_decode (some [0x10, 4, 1, 0, 13, 0, 0, 0, 0, 0, 1, 0, 0, 5, 0, 0x28])
     = .ok (some (16, 4, 1, 13, 0, 1, 5, 208, true, true)) := by rfl
-example : Gen.Fn.t3_attr_decode [0x10, 4, 1, 0, 13, 0, 0, 0, 0, 0, 1, 0, 0, 5, 0, 0x29] = .ok none := by rfl
-example : Gen.Fn.t3_attr_decode [0x10, 4, 1] = .error .struct := by rfl
+example : Gen.Fn.t3_attr_decode (some [0x10, 4, 1, 0, 13, 0, 0, 0, 0, 0, 1, 0, 0, 5, 0, 0x29]) = .ok none := by rfl
+example : Gen.Fn.t3_attr_decode (some [0x10, 4, 1]) = .error .struct := by rfl
 example : Gen.Fn.t3_attr_encode 0x10 4 1 13 0 1 5 = .ok [0x10, 4, 1, 0, 13, 0, 0, 0, 0, 0, 1, 0, 0, 5, 0, 0x28] := by decide
 example : Gen.Fn.t3_read_plan 0x10 5 13 4 = some (2, 4) := by decide
 example : Gen.Fn.t3_read_plan 0x20 5 13 4 = none := by decide
